@@ -326,13 +326,6 @@ def lines_agree(a, b):
     ca, cb = la.canon(), lb.canon()
     if ca == cb:
         return True
-    # TEMPORARY until the Lean diff engine lands: the model reports "<DIFF>" for a non-empty report
-    if ca[0] == cb[0] and ca[2:] == cb[2:] and len(ca[1]) == len(cb[1]):
-        okk = True
-        for (k1, v1), (k2, v2) in zip(ca[1], cb[1]):
-            if k1 != k2 or (v1 != v2 and not (k1 == 'E' and v2 == DIFF_WILDCARD and v1 != b'')):
-                okk = False
-        return okk
     return False
 
 
